@@ -30,7 +30,7 @@ PROP = {
     ],
     "assumptions": [
         "call-site precondition of AclPolicy::matches: non-empty hop sequence (hops_from_path yields >= 2 hops; shown by "
-        "c16_hops_from_path_b4 for <= 4 interfaces)",
+        "c16_hops_from_path_i1..i4 for <= 4 interfaces)",
         "Isd/Asn wildcard matching is symmetric (a hop whose ISD or AS is 0 matches every predicate): taken from the doc comment "
         "of Isd::matches / Asn::matches",
     ],
@@ -70,7 +70,10 @@ PROP = {
                 H("c16_acl_first_match_e3", "B", bound="exactly 3 entries, 1..=4 hops, full predicate alphabet",
                   what="bounded companion of the Verus ACL unit (concrete counterexamples)", timeout=1200),
                 H("c16_hops_from_path_no_metadata", "P", what="Err without metadata / interfaces"),
-                H("c16_hops_from_path_b4", "B", bound="<= 4 interfaces", what="hop extraction shape, first/last interface 0", timeout=1800),
+                H("c16_hops_from_path_i1", "B", bound="exactly 1 interfaces", what="hop extraction shape, first hop ingress 0 / last hop egress 0", timeout=1200),
+                H("c16_hops_from_path_i2", "B", bound="exactly 2 interfaces", what="hop extraction shape, first hop ingress 0 / last hop egress 0", timeout=1200),
+                H("c16_hops_from_path_i3", "B", bound="exactly 3 interfaces", what="hop extraction shape, first hop ingress 0 / last hop egress 0", timeout=1200),
+                H("c16_hops_from_path_i4", "B", bound="exactly 4 interfaces", what="hop extraction shape, first hop ingress 0 / last hop egress 0", timeout=1200),
                 H("c16_hop_pred_parse_n6", "B", bound="ASCII strings <= 6 bytes", what="HopPredicate::from_str total + alphabet", timeout=1800),
                 H("c16_hop_pred_display_parse_b", "B", tier="thorough", bound="numeric fields < 10 (printed form <= 8 bytes), full structure alphabet",
                   what="HopPredicate Display . parse", timeout=3600),
